@@ -318,7 +318,7 @@ pub fn run(ctx: &Ctx) -> usize {
 		ctx.exhaustive.store(true, Ordering::Relaxed);
 		ctx.put("exhaustive_parts", json!(["normalisation over all 1,112,064 Unicode scalar values", "NUL position 0..=width for each of the three widths"]));
 	}
-	if run_dna(ctx, "dna", ctx.n(30_000, 1_500_000), 160, |dna, counting| {
+	if run_dna(ctx, "dna", ctx.n(200_000, 10_000_000), 160, |dna, counting| {
 		let (f, k) = dna_field(dna);
 		check_field(ctx, &f, k, counting)
 	})
@@ -326,7 +326,7 @@ pub fn run(ctx: &Ctx) -> usize {
 	{
 		violations += 1;
 	}
-	if run_dna(ctx, "start", ctx.n(6000, 200_000), 1024, |dna, counting| start_case(ctx, dna, counting)).is_some() {
+	if run_dna(ctx, "start", ctx.n(30_000, 1_500_000), 1024, |dna, counting| start_case(ctx, dna, counting)).is_some() {
 		violations += 1;
 	}
 	violations
